@@ -227,6 +227,10 @@ static int run_small(std::istringstream& hs, const std::string& header)
 }
 
 // ---------------------------------------------------------------- LIFO block sources
+// what a refused return must leave alone: the source's own cursor / loan state
+static std::string dump_src(static_block_allocator& s) { return std::to_string(reinterpret_cast<std::uintptr_t>(s.cur_)); }
+static std::string dump_src(virtual_block_allocator& s) { return std::to_string(reinterpret_cast<std::uintptr_t>(s.cur_)) + ":" + std::to_string(s.capacity_left()); }
+static std::string dump_src(fixed_block_allocator<up_alloc>& s) { return std::to_string(s.next_block_size()); }
 template <class Src, class Mk>
 static int run_lifo_t(Mk mk, const std::string& header, std::size_t bs)
 {
@@ -242,7 +246,7 @@ static int run_lifo_t(Mk mk, const std::string& header, std::size_t bs)
         {   // return a block that is not the most recently acquired one
             std::size_t k; is >> k; if (held.size() < 2) { std::printf("%s = skipped\n", line.c_str()); continue; }
             k %= held.size() - 1; auto b = held[k];
-            const char* cls = in_child([&] { s->deallocate_block(b); });
+            const char* cls = in_child([&] { s->deallocate_block(b); }, [&] { return dump_src(*s); });
             res = std::string(cls) + " position=" + std::to_string(k) + " of=" + std::to_string(held.size());
         }
         else if (op == "fail") { up().fail_at = up().calls + 1; res = "set"; }     // the next upstream call of the fixed source fails
@@ -250,7 +254,7 @@ static int run_lifo_t(Mk mk, const std::string& header, std::size_t bs)
         {   // fixed source: a block is returned although none is out
             if (!held.empty()) { std::printf("%s = skipped\n", line.c_str()); continue; }
             alignas(16) static char fake[64];
-            const char* cls = in_child([&] { s->deallocate_block(memory_block(fake, bs)); });
+            const char* cls = in_child([&] { s->deallocate_block(memory_block(fake, bs)); }, [&] { return dump_src(*s); });
             res = std::string(cls) + " none-out";
         }
         else continue;
